@@ -432,8 +432,354 @@ fn h_names(op: &str, a: &[&str]) -> Option<String> {
     }
 }
 
+// ------------------------------------------------------------------ loader wiring, package units
+
+const ALL_IDS: &[gimli::SectionId] = &[
+    gimli::SectionId::DebugAbbrev,
+    gimli::SectionId::DebugAddr,
+    gimli::SectionId::DebugAranges,
+    gimli::SectionId::DebugCuIndex,
+    gimli::SectionId::DebugFrame,
+    gimli::SectionId::EhFrame,
+    gimli::SectionId::EhFrameHdr,
+    gimli::SectionId::DebugInfo,
+    gimli::SectionId::DebugLine,
+    gimli::SectionId::DebugLineStr,
+    gimli::SectionId::DebugLoc,
+    gimli::SectionId::DebugLocLists,
+    gimli::SectionId::DebugMacinfo,
+    gimli::SectionId::DebugMacro,
+    gimli::SectionId::DebugNames,
+    gimli::SectionId::DebugPubNames,
+    gimli::SectionId::DebugPubTypes,
+    gimli::SectionId::DebugRanges,
+    gimli::SectionId::DebugRngLists,
+    gimli::SectionId::DebugStr,
+    gimli::SectionId::DebugStrOffsets,
+    gimli::SectionId::DebugTuIndex,
+    gimli::SectionId::DebugTypes,
+];
+
+/// one buffer holding a distinct marker (the section's ELF name) per `SectionId`, separated by
+/// gaps so that no two markers are adjacent in memory
+struct Markers {
+    buf: Vec<u8>,
+    at: Vec<(gimli::SectionId, usize, usize)>,
+}
+impl Markers {
+    fn new() -> Markers {
+        let mut buf = Vec::new();
+        let mut at = Vec::new();
+        for id in ALL_IDS {
+            buf.extend_from_slice(&[0xee; 8]);
+            let n = id.name().as_bytes();
+            at.push((*id, buf.len(), n.len()));
+            buf.extend_from_slice(n);
+        }
+        buf.extend_from_slice(&[0xee; 8]);
+        Markers { buf, at }
+    }
+    fn get(&self, id: gimli::SectionId) -> Sl<'_> {
+        let (_, o, l) = self.at.iter().find(|x| x.0 == id).unwrap();
+        EndianSlice::new(&self.buf[*o..*o + *l], RunTimeEndian::Little)
+    }
+}
+
+fn mark_s(r: &Sl<'_>) -> String {
+    String::from_utf8_lossy(r.slice()).into_owned()
+}
+
+fn wiring() -> String {
+    use gimli::Section;
+    let m = Markers::new();
+    let kv = |v: Vec<(&str, String)>| join(",", &v.into_iter().map(|(a, b)| format!("{a}={b}")).collect::<Vec<_>>());
+    // --- DwarfSections::load
+    let mut order: Vec<String> = Vec::new();
+    let secs: gimli::DwarfSections<Sl<'_>> = gimli::DwarfSections::load(|id| -> Result<Sl<'_>, ()> {
+        order.push(id.name().to_string());
+        Ok(m.get(id))
+    })
+    .unwrap();
+    let s = kv(vec![
+        ("debug_abbrev", mark_s(secs.debug_abbrev.reader())),
+        ("debug_addr", mark_s(secs.debug_addr.reader())),
+        ("debug_aranges", mark_s(secs.debug_aranges.reader())),
+        ("debug_info", mark_s(secs.debug_info.reader())),
+        ("debug_line", mark_s(secs.debug_line.reader())),
+        ("debug_line_str", mark_s(secs.debug_line_str.reader())),
+        ("debug_macinfo", mark_s(secs.debug_macinfo.reader())),
+        ("debug_macro", mark_s(secs.debug_macro.reader())),
+        ("debug_names", mark_s(secs.debug_names.reader())),
+        ("debug_str", mark_s(secs.debug_str.reader())),
+        ("debug_str_offsets", mark_s(secs.debug_str_offsets.reader())),
+        ("debug_types", mark_s(secs.debug_types.reader())),
+        ("debug_loc", mark_s(secs.debug_loc.reader())),
+        ("debug_loclists", mark_s(secs.debug_loclists.reader())),
+        ("debug_ranges", mark_s(secs.debug_ranges.reader())),
+        ("debug_rnglists", mark_s(secs.debug_rnglists.reader())),
+    ]);
+    // --- Dwarf::load (and the same through DwarfSections::borrow): slot -> marker
+    let dwarf_slots = |d: &gimli::Dwarf<Sl<'_>>, m: &Markers| -> String {
+        // `locations` has no accessors: find the marker each half answers for
+        let loc_of = |want: gimli::SectionId| -> String {
+            let mut found = Vec::new();
+            for id in ALL_IDS {
+                if let Some((sid, 0)) = d.locations.lookup_offset_id(m.get(*id).offset_id()) {
+                    if sid == want {
+                        found.push(id.name().to_string());
+                    }
+                }
+            }
+            if found.len() == 1 { found.remove(0) } else { format!("?{}", found.join("+")) }
+        };
+        kv(vec![
+            ("debug_abbrev", mark_s(d.debug_abbrev.reader())),
+            ("debug_addr", mark_s(d.debug_addr.reader())),
+            ("debug_aranges", mark_s(d.debug_aranges.reader())),
+            ("debug_info", mark_s(d.debug_info.reader())),
+            ("debug_line", mark_s(d.debug_line.reader())),
+            ("debug_line_str", mark_s(d.debug_line_str.reader())),
+            ("debug_macinfo", mark_s(d.debug_macinfo.reader())),
+            ("debug_macro", mark_s(d.debug_macro.reader())),
+            ("debug_names", mark_s(d.debug_names.reader())),
+            ("debug_str", mark_s(d.debug_str.reader())),
+            ("debug_str_offsets", mark_s(d.debug_str_offsets.reader())),
+            ("debug_types", mark_s(d.debug_types.reader())),
+            ("locations.debug_loc", loc_of(gimli::SectionId::DebugLoc)),
+            ("locations.debug_loclists", loc_of(gimli::SectionId::DebugLocLists)),
+            ("ranges.debug_ranges", mark_s(d.ranges.debug_ranges().reader())),
+            ("ranges.debug_rnglists", mark_s(d.ranges.debug_rnglists().reader())),
+        ])
+    };
+    let dwarf: gimli::Dwarf<Sl<'_>> = gimli::Dwarf::load(|id| -> Result<Sl<'_>, ()> { Ok(m.get(id)) }).unwrap();
+    let d = dwarf_slots(&dwarf, &m);
+    // the borrow path: load owned offsets, borrow them as the marker slices
+    let owned: gimli::DwarfSections<gimli::SectionId> = gimli::DwarfSections::load(|id| -> Result<gimli::SectionId, ()> { Ok(id) }).unwrap();
+    let borrowed = owned.borrow(|id| m.get(*id));
+    let d2 = dwarf_slots(&borrowed, &m);
+    // the supplementary file: same table, found through `sup()` and flagged by lookup_offset_id
+    let m2 = Markers::new();
+    let mut with_sup: gimli::Dwarf<Sl<'_>> = gimli::Dwarf::load(|id| -> Result<Sl<'_>, ()> { Ok(m.get(id)) }).unwrap();
+    with_sup.load_sup(|id| -> Result<Sl<'_>, ()> { Ok(m2.get(id)) }).unwrap();
+    let d3 = dwarf_slots(with_sup.sup().unwrap(), &m2);
+    let sup_ok = {
+        // data really comes from the second buffer, and lookup flags it as supplementary
+        let a = with_sup.sup().unwrap().debug_info.reader().offset_id();
+        a == m2.get(gimli::SectionId::DebugInfo).offset_id() && matches!(with_sup.lookup_offset_id(a), Some((true, gimli::SectionId::DebugInfo, 0)))
+    };
+    // --- Dwarf::lookup_offset_id for every marker
+    let l: Vec<String> = ALL_IDS
+        .iter()
+        .map(|id| {
+            let r = dwarf.lookup_offset_id(m.get(*id).offset_id());
+            format!("{}={}", id.name(), match r {
+                Some((false, sid, 0)) => sid.name().to_string(),
+                Some((sup, sid, off)) => format!("?{sup}/{}/{off}", sid.name()),
+                None => "~".into(),
+            })
+        })
+        .collect();
+    // --- DwarfPackageSections::load
+    let mut porder: Vec<String> = Vec::new();
+    let pk: gimli::DwarfPackageSections<Sl<'_>> = gimli::DwarfPackageSections::load(|id| -> Result<Sl<'_>, gimli::Error> {
+        porder.push(id.name().to_string());
+        Ok(m.get(id))
+    })
+    .unwrap();
+    let p = kv(vec![
+        ("cu_index", mark_s(pk.cu_index.reader())),
+        ("tu_index", mark_s(pk.tu_index.reader())),
+        ("debug_abbrev", mark_s(pk.debug_abbrev.reader())),
+        ("debug_info", mark_s(pk.debug_info.reader())),
+        ("debug_line", mark_s(pk.debug_line.reader())),
+        ("debug_macinfo", mark_s(pk.debug_macinfo.reader())),
+        ("debug_macro", mark_s(pk.debug_macro.reader())),
+        ("debug_str", mark_s(pk.debug_str.reader())),
+        ("debug_str_offsets", mark_s(pk.debug_str_offsets.reader())),
+        ("debug_loc", mark_s(pk.debug_loc.reader())),
+        ("debug_loclists", mark_s(pk.debug_loclists.reader())),
+        ("debug_rnglists", mark_s(pk.debug_rnglists.reader())),
+        ("debug_types", mark_s(pk.debug_types.reader())),
+    ]);
+    let out = format!("S:{}|order={}|D:{}|L:{}|P:{}|porder={}", s, order.join(","), d, l.join(","), p, porder.join(","));
+    // direct oracle, independent of the Model's tables: every slot holds the marker whose name is
+    // the slot's own name; nothing is loaded twice
+    let mut bad = None;
+    for part in [&s, &d, &d2, &d3, &p] {
+        for kvp in part.split(',') {
+            let (k, v) = kvp.split_once('=').unwrap();
+            let field = k.rsplit('.').next().unwrap();
+            let want = match field {
+                "cu_index" | "tu_index" => format!(".debug_{field}"),
+                f => format!(".{f}"),
+            };
+            if want != v && bad.is_none() {
+                bad = Some(format!("wrong-section slot={k} got={v}"));
+            }
+        }
+    }
+    if d != d2 && bad.is_none() {
+        bad = Some("borrow-differs-from-load".to_string());
+    }
+    if !sup_ok && bad.is_none() {
+        bad = Some("sup-not-wired".to_string());
+    }
+    let mut o2 = order.clone();
+    o2.sort();
+    o2.dedup();
+    if o2.len() != order.len() && bad.is_none() {
+        bad = Some("section-loaded-twice".to_string());
+    }
+    with_oracle(format!("ok {out}"), bad)
+}
+
+fn sec_of<'a>(secs: &'a [Vec<u8>], id: gimli::SectionId, cu: &'a [u8], tu: &'a [u8], st: &'a [u8]) -> &'a [u8] {
+    use gimli::SectionId::*;
+    // order of the `secs` argument: abbrev, info, line, loc, loclists, macinfo, macro, str_offsets, rnglists, types
+    match id {
+        DebugCuIndex => cu,
+        DebugTuIndex => tu,
+        DebugStr => st,
+        DebugAbbrev => &secs[0],
+        DebugInfo => &secs[1],
+        DebugLine => &secs[2],
+        DebugLoc => &secs[3],
+        DebugLocLists => &secs[4],
+        DebugMacinfo => &secs[5],
+        DebugMacro => &secs[6],
+        DebugStrOffsets => &secs[7],
+        DebugRngLists => &secs[8],
+        DebugTypes => &secs[9],
+        _ => &[],
+    }
+}
+
+/// the bytes of one half of `locations` (no accessor): probe `lookup_offset_id` over the package
+/// section the slice must come from
+fn loc_slice(d: &gimli::Dwarf<Sl<'_>>, want: gimli::SectionId, pkg: &[u8], e: RunTimeEndian) -> String {
+    if pkg.is_empty() {
+        // all empty vectors share one dangling address; a successful `dwp_range` of an empty
+        // section can only be empty
+        return "-".into();
+    }
+    let base = EndianSlice::new(pkg, e);
+    let mut hits: Vec<usize> = Vec::new();
+    for x in 0..=pkg.len() {
+        let mut r = base;
+        let _ = r.skip(x);
+        if let Some((sid, _)) = d.locations.lookup_offset_id(r.offset_id()) {
+            if sid == want {
+                hits.push(x);
+            }
+        }
+    }
+    match (hits.first(), hits.last()) {
+        (Some(a), Some(b)) => hex(&pkg[*a..*b]),
+        _ => "?".into(),
+    }
+}
+
+fn h_loader(op: &str, a: &[&str]) -> Option<String> {
+    match (op, a) {
+        ("load-wiring", []) => Some(wiring()),
+        ("dwp", [e, cu, tu, secs, st, ids, exp]) => {
+            use gimli::Section;
+            let e = endian(e)?;
+            let cu = unhex(cu)?;
+            let tu = unhex(tu)?;
+            let st = unhex(st)?;
+            let secs: Vec<Vec<u8>> = secs.split(',').map(unhex).collect::<Option<Vec<_>>>()?;
+            if secs.len() != 10 {
+                return None;
+            }
+            let empty = EndianSlice::new(&[][..], e);
+            let dwp = gimli::DwarfPackage::load(|id| -> Result<Sl<'_>, gimli::Error> { Ok(EndianSlice::new(sec_of(&secs, id, &cu, &tu, &st), e)) }, empty);
+            let dwp = match dwp {
+                Ok(d) => d,
+                Err(x) => return Some(format!("err {}", rerr(&x))),
+            };
+            let mut parent: gimli::Dwarf<Sl<'_>> = gimli::Dwarf::default();
+            parent.debug_addr = gimli::DebugAddr::from(EndianSlice::new(&b"ADDR"[..], e));
+            parent.ranges = gimli::RangeLists::new(gimli::DebugRanges::from(EndianSlice::new(&b"RANGES"[..], e)), gimli::DebugRngLists::from(EndianSlice::new(&b"no"[..], e)));
+            let mut out = Vec::new();
+            for t in ids.split(',') {
+                let (kind, id) = t.split_at(1);
+                let id: u64 = id.parse().ok()?;
+                let (ix, r) = if kind == "c" { (&dwp.cu_index, dwp.find_cu(gimli::DwoId(id), &parent)) } else { (&dwp.tu_index, dwp.find_tu(gimli::DebugTypeSignature(id), &parent)) };
+                out.push(match r {
+                    Ok(None) => "n".to_string(),
+                    Err(x) => format!("!{}", rerr(&x)),
+                    Ok(Some(d)) => {
+                        let row = ix.find(id).map(|r| r.to_string()).unwrap_or("?".into());
+                        let h = |r: &Sl<'_>| hex(r.slice());
+                        let sl = vec![
+                            h(d.debug_abbrev.reader()),
+                            h(d.debug_info.reader()),
+                            h(d.debug_line.reader()),
+                            loc_slice(&d, gimli::SectionId::DebugLoc, &secs[3], e),
+                            loc_slice(&d, gimli::SectionId::DebugLocLists, &secs[4], e),
+                            h(d.debug_macinfo.reader()),
+                            h(d.debug_macro.reader()),
+                            h(d.debug_str_offsets.reader()),
+                            h(d.ranges.debug_rnglists().reader()),
+                            h(d.debug_types.reader()),
+                        ];
+                        let ex = vec![
+                            h(d.debug_addr.reader()),
+                            h(d.ranges.debug_ranges().reader()),
+                            h(d.debug_str.reader()),
+                            h(d.debug_aranges.reader()),
+                            h(d.debug_line_str.reader()),
+                            h(d.debug_names.reader()),
+                        ];
+                        format!("{}:{}|{}", row, sl.join(","), ex.join(","))
+                    }
+                });
+            }
+            let s = join(";", &out);
+            let bad = if *exp != "-" && *exp != s { Some(format!("dwp-unit-differs standalone={exp}")) } else { None };
+            Some(with_oracle(format!("ok {s}"), bad))
+        }
+        ("stroff", [e, f, h, base, index, exp]) => {
+            let e = endian(e)?;
+            let f = match *f {
+                "32" => gimli::Format::Dwarf32,
+                "64" => gimli::Format::Dwarf64,
+                _ => return None,
+            };
+            let bs = unhex(h)?;
+            let base: usize = base.parse().ok()?;
+            let index: usize = index.parse().ok()?;
+            let sec = gimli::DebugStrOffsets::from(EndianSlice::new(&bs[..], e));
+            let r = sec.get_str_offset(f, gimli::DebugStrOffsetsBase(base), gimli::DebugStrOffsetsIndex(index));
+            let s = match &r {
+                Ok(v) => format!("ok {}", v.0),
+                Err(x) => format!("err {}", rerr(x)),
+            };
+            let bad = if *exp != "-" && format!("ok {exp}") != s { Some(format!("stroff-differs table={exp}")) } else { None };
+            Some(with_oracle(s, bad))
+        }
+        ("addrx", [e, sz, h, base, index, exp]) => {
+            let e = endian(e)?;
+            let sz: u8 = sz.parse().ok()?;
+            let bs = unhex(h)?;
+            let base: usize = base.parse().ok()?;
+            let index: usize = index.parse().ok()?;
+            let sec = gimli::DebugAddr::from(EndianSlice::new(&bs[..], e));
+            let r = sec.get_address(sz, gimli::DebugAddrBase(base), gimli::DebugAddrIndex(index));
+            let s = match &r {
+                Ok(v) => format!("ok {}", v),
+                Err(x) => format!("err {}", rerr(x)),
+            };
+            let bad = if *exp != "-" && format!("ok {exp}") != s { Some(format!("addrx-differs table={exp}")) } else { None };
+            Some(with_oracle(s, bad))
+        }
+        _ => None,
+    }
+}
+
 pub fn handle(op: &str, a: &[&str]) -> Option<String> {
-    h_index(op, a).or_else(|| h_aranges(op, a)).or_else(|| h_pub(op, a)).or_else(|| h_names(op, a))
+    h_index(op, a).or_else(|| h_aranges(op, a)).or_else(|| h_pub(op, a)).or_else(|| h_names(op, a)).or_else(|| h_loader(op, a))
 }
 
 // =================================================================== generators
@@ -1788,11 +2134,189 @@ fn gen_names(ctx: &Ctx, emit: &mut dyn FnMut(String)) {
     }
 }
 
+// ---------- package units, indexed tables, loader wiring
+
+/// position in the `secs` argument / `sliceOrder` for a column kind number of a version
+fn slice_pos(version: u16, kind: u32) -> usize {
+    match (version, kind) {
+        (_, 3) => 0,
+        (_, 1) => 1,
+        (_, 4) => 2,
+        (2, 5) => 3,
+        (5, 5) => 4,
+        (2, 7) => 5,
+        (2, 8) => 6,
+        (5, 7) => 6,
+        (_, 6) => 7,
+        (5, 8) => 8,
+        (2, 2) => 9,
+        _ => 0,
+    }
+}
+
+fn gen_dwp(ctx: &Ctx, emit: &mut dyn FnMut(String)) {
+    let mut rng = ctx.rng(1705);
+    let n = ctx.n(250, 4000);
+    for case in 0..n {
+        let big = rng.chance(1, 2);
+        let version: u16 = if rng.chance(1, 2) { 2 } else { 5 };
+        let table = if version == 2 { V2_KINDS } else { V5_KINDS };
+        let mut secs: Vec<Vec<u8>> = vec![Vec::new(); 10];
+        let mut exp: Vec<String> = Vec::new();
+        let mut ids_s: Vec<String> = Vec::new();
+        let dstr = rng.bytes_below(6);
+        let mut index_bytes: Vec<Vec<u8>> = Vec::new();
+        let malformed = case % 10 == 9;
+        for which in ["c", "t"] {
+            let nunits = if which == "t" && rng.chance(1, 2) { 0 } else { rng.range(0, 5) as usize };
+            if nunits == 0 && rng.chance(1, 2) {
+                index_bytes.push(Vec::new()); // missing index section
+                let id = rand_id(&mut rng);
+                ids_s.push(format!("{which}{id}"));
+                exp.push("n".into());
+                continue;
+            }
+            let mut cols: Vec<u32> = table.iter().map(|x| x.0).filter(|_| rng.chance(2, 3)).collect();
+            for i in (1..cols.len()).rev() {
+                let j = rng.below(i as u64 + 1) as usize;
+                cols.swap(i, j);
+            }
+            let k = {
+                let mut k = 0;
+                while (1usize << k) <= nunits {
+                    k += 1;
+                }
+                k + rng.below(2) as u32
+            };
+            let regime = rng.below(4);
+            let ids = gen_ids(&mut rng, k, nunits, regime);
+            let nunits = ids.len();
+            let kvs: Vec<(u64, u32)> = ids.iter().enumerate().map(|(i, id)| (*id, i as u32 + 1)).collect();
+            let slots = build_slots(k, &kvs).unwrap();
+            let mut offsets = vec![vec![0u32; cols.len()]; nunits];
+            let mut sizes = vec![vec![0u32; cols.len()]; nunits];
+            let mut contrib: Vec<Vec<Vec<u8>>> = vec![vec![Vec::new(); cols.len()]; nunits];
+            for u in 0..nunits {
+                for (c, kind) in cols.iter().enumerate() {
+                    let sp = slice_pos(version, *kind);
+                    if rng.chance(1, 4) {
+                        let gap = rng.bytes_below(3);
+                        secs[sp].extend(gap); // padding between contributions
+                    }
+                    let data = rng.bytes_below(7);
+                    offsets[u][c] = secs[sp].len() as u32;
+                    sizes[u][c] = data.len() as u32;
+                    secs[sp].extend_from_slice(&data);
+                    contrib[u][c] = data;
+                }
+            }
+            if malformed && nunits > 0 && !cols.is_empty() {
+                let u = rng.below(nunits as u64) as usize;
+                let c = rng.below(cols.len() as u64) as usize;
+                if rng.chance(1, 2) {
+                    offsets[u][c] = offsets[u][c].wrapping_add(*rng.pick(&[1u32, 7, 0x100, 0xffff_ff00]));
+                } else {
+                    sizes[u][c] = sizes[u][c].wrapping_add(*rng.pick(&[1u32, 9, 0x8000_0000]));
+                }
+            }
+            let ix = AbsIndex { version, k: Some(k), kvs: kvs.clone(), cols: cols.clone(), unit_count: nunits as u32, offsets, sizes };
+            index_bytes.push(ser_index(&ix, big, &slots, 1u32 << k, None, 0));
+            // every present key, some absent ones
+            for (u, (id, row)) in kvs.iter().enumerate() {
+                ids_s.push(format!("{which}{id}"));
+                let mut sl = vec!["-".to_string(); 10];
+                for (c, kind) in cols.iter().enumerate() {
+                    sl[slice_pos(version, *kind)] = hex(&contrib[u][c]);
+                }
+                exp.push(format!("{}:{}|41444452,52414e474553,{},-,-,-", row, sl.join(","), hex(&dstr)));
+            }
+            for _ in 0..2 {
+                let id = rand_id(&mut rng);
+                if !kvs.iter().any(|x| x.0 == id) {
+                    ids_s.push(format!("{which}{id}"));
+                    exp.push("n".into());
+                }
+            }
+        }
+        emit(format!(
+            "dwp {} {} {} {} {} {} {}",
+            es(big),
+            hex(&index_bytes[0]),
+            hex(&index_bytes[1]),
+            secs.iter().map(|b| hex(b)).collect::<Vec<_>>().join(","),
+            hex(&dstr),
+            ids_s.join(","),
+            if malformed { "-".to_string() } else { join(";", &exp) }
+        ));
+    }
+    // index sections that do not parse: the package cannot be built
+    for big in [false, true] {
+        let e10 = vec!["-"; 10].join(",");
+        emit(format!("dwp {} 01000000 - {} - c1 -", es(big), e10));
+        emit(format!("dwp {} - 0500 {} - t1 -", es(big), e10));
+        emit(format!("dwp {} - - {} - c1,t1,c0 -", es(big), e10));
+    }
+}
+
+fn gen_indexed(ctx: &Ctx, emit: &mut dyn FnMut(String)) {
+    let mut rng = ctx.rng(1706);
+    let n = ctx.n(150, 3000);
+    for _ in 0..n {
+        let big = rng.chance(1, 2);
+        // .debug_str_offsets: header junk, then `cnt` offsets
+        let f64_ = rng.chance(1, 2);
+        let wmask = if f64_ { u64::MAX } else { 0xffff_ffff };
+        let base = rng.below(17) as usize;
+        let cnt = rng.below(9) as usize;
+        let vals: Vec<u64> = (0..cnt).map(|_| (if rng.chance(1, 3) { rng.boundary_u64() } else { rng.next() }) & wmask).collect();
+        let mut w = W::new(big);
+        w.bytes(&rng.bytes(base));
+        for v in &vals {
+            w.word(*v, f64_);
+        }
+        if rng.chance(1, 3) {
+            w.bytes(&rng.bytes_below(if f64_ { 8 } else { 4 }));
+        }
+        let h = hex(&w.b);
+        let fs = if f64_ { "64" } else { "32" };
+        for (i, v) in vals.iter().enumerate() {
+            emit(format!("stroff {} {} {} {} {} {}", es(big), fs, h, base, i, v));
+        }
+        for idx in [cnt as u64, cnt as u64 + 1, u64::MAX, u64::MAX / 4, u64::MAX / 8 + 1, 1 << 61, 1 << 62, rng.boundary_u64()] {
+            emit(format!("stroff {} {} {} {} {} -", es(big), fs, h, base, idx));
+        }
+        emit(format!("stroff {} {} {} {} 0 -", es(big), fs, h, w.b.len() + rng.below(3) as usize));
+        emit(format!("stroff {} {} {} {} 0 -", es(big), fs, h, rng.boundary_u64()));
+        // .debug_addr
+        let asz = *rng.pick(&[1u8, 2, 4, 8]);
+        let amask = ar_mask(asz);
+        let vals: Vec<u64> = (0..cnt).map(|_| (if rng.chance(1, 3) { rng.boundary_u64() } else { rng.next() }) & amask).collect();
+        let mut w = W::new(big);
+        w.bytes(&rng.bytes(base));
+        for v in &vals {
+            w.uint(*v, asz as usize);
+        }
+        let h = hex(&w.b);
+        for (i, v) in vals.iter().enumerate() {
+            emit(format!("addrx {} {} {} {} {} {}", es(big), asz, h, base, i, v));
+        }
+        for idx in [cnt as u64, u64::MAX, u64::MAX / asz as u64, (u64::MAX / asz as u64).wrapping_add(1), 1 << 63, rng.boundary_u64()] {
+            emit(format!("addrx {} {} {} {} {} -", es(big), asz, h, base, idx));
+        }
+        let bad = *rng.pick(&[0u8, 3, 5, 7, 9, 16, 255]);
+        emit(format!("addrx {} {} {} {} {} -", es(big), bad, h, base, rng.below(3)));
+        emit(format!("addrx {} {} {} {} {} -", es(big), bad, h, base, u64::MAX));
+    }
+}
+
 pub fn gen(ctx: &Ctx, emit: &mut dyn FnMut(String)) {
     gen_index(ctx, emit);
     gen_aranges(ctx, emit);
     gen_pub(ctx, emit);
     gen_names(ctx, emit);
+    gen_dwp(ctx, emit);
+    gen_indexed(ctx, emit);
+    emit("load-wiring".into());
 }
 
 #[allow(dead_code)]
